@@ -47,6 +47,7 @@ def run(ctx):
                 core.leanchecker(ctx, ["ButlerModel.Props.C13"])
     with repo.Scratch("verif-c13-") as tmp:
         correspondence(ctx, built, tmp)
+        butler_level(ctx, tmp)
 
 
 def correspondence(ctx, model_ok, tmp):
@@ -224,6 +225,41 @@ def correspondence(ctx, model_ok, tmp):
             viol(f"standardize({mapping}, dimensions={list(names)}, kwargs={kwargs}) refused although every required key has a value",
                  f"std-refused:{sorted(names)}:{sorted(map(str, merged.items()))}", {"kind": "standardize", "mapping": str(mapping), "kwargs": str(kwargs)})
 
+        # ---- the same call with the mapping handed over as a DataCoordinate (the keywords still extend / override it)
+        if explicit and rng.random() < 0.35:
+            known = {k: v_ for k, v_ in mapping.items() if k in POOL}
+            try:
+                dc = DataCoordinate.standardize(known, universe=u)
+            except Exception:
+                dc = None
+            if dc is not None:
+                flat = {**(dict(dc.mapping) if dc.hasFull() else dict(dc.required)), **kwargs}
+                ctx.count("datacoordinate-input")
+                ctx.evaluations += 1
+
+                def outcome(fn):
+                    try:
+                        r_ = fn()
+                        return "ok", {k: r_[k] for k in (r_.dimensions.names if r_.hasFull() else r_.dimensions.required)}
+                    except (DimensionNameError, InconsistentDataIdError, DataIdValueError) as exn:
+                        return type(exn).__name__, None
+                    except KeyError:
+                        # a DataCoordinate that lacks a needed value answers with the KeyError that DimensionNameError specialises
+                        return "DimensionNameError", None
+                    except Exception as exn:
+                        return "INTERNAL:" + type(exn).__name__, None
+                for label, via_dc, via_dict in (
+                    ("standardize", lambda: DataCoordinate.standardize(dc, dimensions=G, universe=u, **kwargs),
+                     lambda: DataCoordinate.standardize(flat, dimensions=G, universe=u)),
+                    ("expandDataId", lambda: reg.expandDataId(dc, dimensions=G, withDefaults=False, **kwargs),
+                     lambda: reg.expandDataId(flat, dimensions=G, withDefaults=False)),
+                ):
+                    o1, o2 = outcome(via_dc), outcome(via_dict)
+                    if o1 != o2:
+                        viol(f"{label}(DataCoordinate{dict(dc.mapping) if dc.hasFull() else dict(dc.required)}, dimensions={list(names)}, **{kwargs}) gives {o1}, "
+                             f"the same keys and values as a plain mapping give {o2}", f"dc-input:{label}:{sorted(names)}:{sorted(map(str, flat.items()))}",
+                             {"kind": "datacoordinate-input", "call": label, "mapping": str(flat), "kwargs": str(kwargs), "dims": list(names)})
+
         # ---- expansion
         if explicit and rng.random() < 0.6:
             full_in = {**mapping, **kwargs}
@@ -376,6 +412,215 @@ def correspondence(ctx, model_ok, tmp):
         ctx.extra["correspondence_disagreements"] = nd
     else:
         ctx.notes.append("model not built: correspondence skipped")
+
+
+def butler_level(ctx, tmp):
+    """Data IDs as the Butler front end accepts them: keys defaulted from the default collections (also after clone()), and
+    record-style keys (`seq_num=`, `exposure.obs_id`, a string for a detector) next to or instead of the dimension value."""
+    from lsst.daf.butler import Butler, DatasetType
+    from lsst.daf.butler._exceptions import ButlerUserError
+
+    rng = ctx.rng
+
+    def viol(what, key, replay):
+        ctx.violations.append(core.Violation(what=what, key=key, replay=replay))
+
+    root = os.path.join(tmp, "front")
+    w = repo.make_butler(root)
+    reg = w.registry
+    INST = ("A", "B")
+    EXPOSURES = {  # id -> (obs_id, seq_num, day_obs, exposure_time, target_name): seq_num 0, NULL target and zero time are ordinary stored values
+        10: ("o10", 0, 20240101, 0.0, None), 11: ("o11", 1, 20240101, 30.0, "m31"), 12: ("o12", 2, 20240101, 30.0, "m31"),
+        13: ("o13", 0, 20240102, 15.0, "x"), 14: ("o14", 1, 20240102, 15.0, "m42"),
+    }
+    DETECTORS = {1: ("D1", None, "S0"), 2: ("D2", "R2", "S0"), 3: ("D3", "R2", "S1"), 4: ("D4", "R4", None)}  # full_name, raft, name_in_raft
+    for inst in INST:
+        reg.insertDimensionData("instrument", {"name": inst})
+        reg.insertDimensionData("physical_filter", {"instrument": inst, "name": "f", "band": "r"})
+        reg.insertDimensionData("group", {"instrument": inst, "name": "g"})
+        for day in (20240101, 20240102):
+            reg.insertDimensionData("day_obs", {"instrument": inst, "id": day})
+        for d, (fn, raft, nir) in DETECTORS.items():
+            reg.insertDimensionData("detector", {"instrument": inst, "id": d, "full_name": fn, "raft": raft, "name_in_raft": nir})
+    for e, (obs, seq, day, t, tgt) in EXPOSURES.items():
+        reg.insertDimensionData("exposure", {"instrument": "A", "id": e, "obs_id": obs, "physical_filter": "f", "day_obs": day, "group": "g", "seq_num": seq,
+                                             "exposure_time": t, "target_name": tgt})
+    raw = DatasetType("raw", ["instrument", "exposure"], "StructuredDataDict", universe=w.dimensions)
+    det = DatasetType("det", ["instrument", "detector"], "StructuredDataDict", universe=w.dimensions)
+    reg.registerDatasetType(raw), reg.registerDatasetType(det)
+    for r_ in ("runA", "runB", "runAB", "runNone"):
+        reg.registerRun(r_)
+    for e in EXPOSURES:
+        w.put({"exposure": e}, "raw", instrument="A", exposure=e, run="runA")
+    for d in DETECTORS:
+        w.put({"i": "A", "d": d}, "det", instrument="A", detector=d, run="runA")
+        w.put({"i": "B", "d": d}, "det", instrument="B", detector=d, run="runB")
+    w.put({"i": "A", "d": 1, "ab": 1}, "det", instrument="A", detector=1, run="runAB")
+    w.put({"i": "B", "d": 2, "ab": 1}, "det", instrument="B", detector=2, run="runAB")
+    holds = {"runA": {"A"}, "runB": {"B"}, "runAB": {"A", "B"}, "runNone": set()}
+
+    # ---- (1) record-style keys
+    from lsst.daf.butler.registry import DataIdError
+
+    def classify(fn):
+        try:
+            ref = fn()
+            return ("found", dict(ref.dataId.required)) if ref is not None else ("none", None)
+        except (ButlerUserError, DataIdError) as exn:
+            return ("rejected", type(exn).__name__)
+        except LookupError as exn:
+            return ("lookup-error", type(exn).__name__)
+        except Exception as exn:
+            return ("INTERNAL", f"{type(exn).__name__}: {str(exn)[:80]}")
+
+    n_cases = 250 if ctx.quick() else 6000
+    for c in range(n_cases):
+        use_exposure = rng.random() < 0.6
+        data_id, kwargs = {"instrument": "A"}, {}
+        if use_exposure:
+            fields = {"obs_id": 0, "seq_num": 1, "exposure_time": 3, "target_name": 4}
+            truth = rng.choice(sorted(EXPOSURES))
+            give_id = rng.random() < 0.6
+            chosen = rng.sample(sorted(fields), rng.randint(0 if give_id else 1, 2))
+            # a unique-key or (day, sequence) specification when the id is missing, any fields when it is given
+            if not give_id and "obs_id" not in chosen and rng.random() < 0.7:
+                chosen = ["seq_num"]
+            vals = {}
+            for fld in chosen:
+                src = truth if rng.random() < 0.6 else rng.choice(sorted(EXPOSURES))
+                v = EXPOSURES[src][fields[fld]]
+                if v is None:
+                    continue
+                vals[fld] = v
+            if not give_id and "seq_num" in vals and "obs_id" not in vals:
+                data_id["day_obs"] = EXPOSURES[truth][2] if rng.random() < 0.8 else rng.choice([20240101, 20240102])
+            if give_id:
+                data_id["exposure"] = truth
+            for fld, v in vals.items():
+                if rng.random() < 0.5:
+                    data_id[f"exposure.{fld}"] = v
+                else:
+                    kwargs[fld] = v
+            if not give_id and not vals:
+                continue
+            matching = [e for e, recd in EXPOSURES.items() if all(recd[fields[f_]] == v for f_, v in vals.items())
+                        and ("day_obs" not in data_id or recd[2] == data_id["day_obs"]) and (not give_id or e == truth)]
+            if give_id:
+                want = ("found", {"instrument": "A", "exposure": truth}) if matching and ("day_obs" not in data_id) else None
+                if not matching:
+                    want = ("rejected",)
+            else:
+                want = ("found", {"instrument": "A", "exposure": matching[0]}) if len(matching) == 1 else ("rejected",)
+            call = lambda: w.find_dataset("raw", dict(data_id), collections="runA", **kwargs)  # noqa: E731
+            name = "raw"
+        else:
+            fields = {"full_name": 0, "raft": 1, "name_in_raft": 2}
+            truth = rng.choice(sorted(DETECTORS))
+            give_id = rng.random() < 0.5
+            as_string = (not give_id) and rng.random() < 0.3
+            chosen = [] if as_string else rng.sample(sorted(fields), rng.randint(0 if give_id else 1, 2))
+            vals = {}
+            for fld in chosen:
+                src = truth if rng.random() < 0.6 else rng.choice(sorted(DETECTORS))
+                v = DETECTORS[src][fields[fld]]
+                if v is None:
+                    continue
+                vals[fld] = v
+            if give_id:
+                data_id["detector"] = truth
+            if as_string:
+                kwargs["detector"] = DETECTORS[truth][0] if rng.random() < 0.8 else "D9"
+                vals = {"full_name": kwargs["detector"]}
+            else:
+                for fld, v in vals.items():
+                    if rng.random() < 0.5:
+                        data_id[f"detector.{fld}"] = v
+                    else:
+                        kwargs[fld] = v
+            if not give_id and not vals:
+                continue
+            matching = [d for d, recd in DETECTORS.items() if all(recd[fields[f_]] == v for f_, v in vals.items()) and (not give_id or d == truth)]
+            want = ("found", {"instrument": "A", "detector": matching[0]}) if len(matching) == 1 else ("rejected",)
+            call = lambda: w.find_dataset("det", dict(data_id), collections="runA", **kwargs)  # noqa: E731
+            name = "det"
+        if want is None:
+            continue
+        got = classify(call)
+        ctx.evaluations += 1
+        ctx.count(f"record-keys:{name}:{'id+' if give_id else ''}{len(vals)}:{want[0]}")
+        if want[0] == "rejected":
+            ctx.nontrivial.add(("record-keys", c))
+        ok = (got[0] == "rejected") if want[0] == "rejected" else (got == want)
+        if not ok:
+            viol(f"find_dataset({name!r}, {data_id}, **{kwargs}): {got}; the stored records say {want}"
+                 + (" — the data ID names two different records (or none) and must be rejected" if want[0] == "rejected" else ""),
+                 f"record-keys:{name}:{sorted(data_id.items(), key=str)}:{sorted(kwargs.items(), key=str)}",
+                 {"kind": "record-keys", "dataset_type": name, "data_id": {k: str(v) for k, v in data_id.items()}, "kwargs": {k: str(v) for k, v in kwargs.items()}})
+
+    # ---- (2) defaulted governor values follow the default collections, through clone() too
+    def expected_default(colls, explicit):
+        if explicit is not None:
+            return explicit
+        insts = set().union(*[holds[c_] for c_ in colls]) if colls else set()
+        return next(iter(insts)) if len(insts) == 1 else None
+
+    def check_defaults(bt, colls, explicit, how):
+        ctx.evaluations += 1
+        ctx.count("defaults:" + how.split(" ")[0])
+        want_inst = expected_default(colls, explicit)
+        got = dict(bt.registry.defaults.dataId.mapping)
+        if got != ({"instrument": want_inst} if want_inst else {}):
+            viol(f"{how}: default data ID is {got}; collections {colls} (explicit default {explicit}) determine {want_inst}", f"defaults:{how}", {"kind": "defaults", "how": how})
+            return
+        try:
+            ex = bt.registry.expandDataId(detector=2)
+            out = ex["instrument"]
+        except DataIdError:
+            out = None
+        except Exception as exn:
+            out = f"INTERNAL:{type(exn).__name__}"
+        if out != want_inst:
+            viol(f"{how}: expandDataId(detector=2) completes the instrument to {out!r}; the defaults determine {want_inst!r}", f"defaults-expand:{how}", {"kind": "defaults", "how": how})
+            return
+        # a lookup that relies on the default finds this butler's own dataset, or is refused when nothing is defaulted
+        try:
+            ref = bt.find_dataset("det", detector=2)
+            out = dict(ref.dataId.required) if ref is not None else None
+        except (DataIdError, ButlerUserError):
+            out = "rejected"
+        except Exception as exn:
+            out = f"INTERNAL:{type(exn).__name__}"
+        if want_inst is None:
+            want = "rejected"
+        else:
+            first = next((c_ for c_ in colls if want_inst in holds[c_] and (c_ != "runAB" or want_inst == "B")), None)
+            want = {"instrument": want_inst, "detector": 2} if first else None
+        if out != want:
+            viol(f"{how}: find_dataset('det', detector=2) gives {out}; with default instrument {want_inst!r} over {colls} it should give {want}", f"defaults-find:{how}", {"kind": "defaults", "how": how})
+
+    runs = ["runA", "runB", "runAB", "runNone"]
+    for _ in range(25 if ctx.quick() else 400):
+        colls = rng.sample(runs, rng.randint(1, 2))
+        explicit = rng.choice([None, None, "A", "B"])
+        kw = {"instrument": explicit} if explicit else {}
+        bt = Butler.from_config(root, collections=colls, **kw)
+        how = f"from_config collections={colls} explicit={explicit}"
+        check_defaults(bt, colls, explicit, how)
+        for _hop in range(rng.randint(1, 3)):
+            colls2 = rng.sample(runs, rng.randint(1, 2))
+            mode = rng.choice(["collections", "collections", "collections+dataId", "plain"])
+            if mode == "collections":
+                bt = bt.clone(collections=colls2)
+                colls = colls2
+            elif mode == "collections+dataId":
+                explicit = rng.choice(["A", "B"])
+                bt = bt.clone(collections=colls2, dataId={"instrument": explicit})
+                colls = colls2
+            else:
+                bt = bt.clone()
+            how += f" -> clone({mode} {colls if mode != 'plain' else ''}{' ' + explicit if mode == 'collections+dataId' else ''})"
+            check_defaults(bt, colls, explicit, how)
+    del w
 
 
 def replay(ctx, content):
